@@ -125,7 +125,7 @@ def _(v):
 
 @harness("C10", "args_dimensionality", functions=["chempy.kinetics.rates:MassAction.args_dimensionality", "chempy.kinetics.rates:Arrhenius.args_dimensionality", "chempy.kinetics.rates:Eyring.args_dimensionality",
                                                    "chempy.kinetics.rates:EyringHS.args_dimensionality", "chempy.kinetics.rates:RampedTemp.args_dimensionality", "chempy.kinetics.rates:SinTemp.args_dimensionality"],
-         samples=0)
+         samples=20)
 def _(v):
     """for EVERY reaction order (symbolic): dimension of k is time^-1 amount^(1-order) length^(3(order-1))"""
     from chempy.kinetics import rates as R
@@ -141,11 +141,30 @@ def _(v):
     v.prove("MassAction", same(d, kdim))
     dA, dE = v.call(R.Arrhenius([1.0, 1.0]).args_dimensionality, rxn)
     v.prove("Arrhenius", SP.conj([same(dA, kdim), dE == {"temperature": 1}]))
+    BASE = ("length", "mass", "time", "current", "temperature", "luminous_intensity", "amount")
+
+    def lin(*terms):
+        # dimension of a product of powers: sum of factor * exponent-vector
+        return {b: sum(f * d.get(b, 0) for f, d in terms) for b in BASE}
+
+    def dim_eq(a, b):
+        return SP.conj([a.get(k, 0) == b.get(k, 0) for k in BASE])
+    Tdim = {"temperature": 1}
+    # Eyring: k = arg0 * T * exp(-arg1 / T) * conc0**(1 - order)  (the formula in Eyring.__call__, proved in C16): the dimensions declared for the
+    # arguments must make the exponent dimensionless and k a rate constant of this order -- taken from the formula, not from the declaration
     d0, d1, d2 = v.call(R.Eyring([1.0, 1.0]).args_dimensionality, rxn)
-    v.prove("Eyring", SP.conj([same(d0, dict(kdim, temperature=-1)), d1 == {"temperature": 1}, dict(d2) == {"amount": 1, "length": -3}]))
+    v.prove("Eyring.exponent_dimensionless", dim_eq(lin((1, d1), (-1, Tdim)), {}))
+    v.prove("Eyring.standard_state_is_a_concentration", dict(d2) == {"amount": 1, "length": -3})
+    v.prove("Eyring.formula_has_the_dimension_of_a_rate_constant_of_this_order", dim_eq(lin((1, d0), (1, Tdim), (1 - n, d2)), kdim))
     h0, h1, h2 = v.call(R.EyringHS([1.0, 1.0]).args_dimensionality)
     energy = {"mass": 1, "length": 2, "time": -2}
     v.prove("EyringHS", dict(h0) == dict(energy, amount=-1) and dict(h1) == dict(energy, amount=-1, temperature=-1) and dict(h2) == {"amount": 1, "length": -3})
+    # EyringHS: k = kB/h * T * exp(-(dH - T*dS)/(R*T)) * c0**(1 - order);  kB/h*T is 1/time, R = energy/(amount*temperature)
+    Rdim = dict(energy, amount=-1, temperature=-1)
+    v.prove("EyringHS.exponent_dimensionless", SP.conj([dim_eq(lin((1, h0), (-1, Rdim), (-1, Tdim)), {}), dim_eq(lin((1, h1), (-1, Rdim)), {})]))
+    v.prove("EyringHS.formula_has_the_dimension_of_a_rate_constant_of_this_order", dim_eq(lin((1, {"time": -1}), (1 - n, h2)), kdim))
+    # Arrhenius: k = A * exp(-Ea_over_R / T)
+    v.prove("Arrhenius.exponent_dimensionless", dim_eq(lin((1, dE), (-1, Tdim)), {}))
     v.prove("RampedTemp", v.call(R.RampedTemp([1.0, 1.0]).args_dimensionality) == ({"temperature": 1}, {"temperature": 1, "time": -1}))
     v.prove("SinTemp", v.call(R.SinTemp([1.0, 1.0, 1.0, 1.0]).args_dimensionality) == ({"temperature": 1}, {"temperature": 1}, {"time": -1}, {}))
 
